@@ -819,6 +819,12 @@ pub fn reads() -> Vec<Read> {
         Read { what: "copyright::Header::fix updates an old format URL", text: "Format: http://www.debian.org/doc/packaging-manuals/copyright-format/1.0\nUpstream-Name: x\n# c\nSource: https://e.org\n", read: |d| { let c = cp(d); let mut h = c.header().unwrap(); h.fix(); format!("{:?} {:?}", h.format_string(), c.to_string()) }, expect: "Some(\"https://www.debian.org/doc/packaging-manuals/copyright-format/1.0/\") \"Format: https://www.debian.org/doc/packaging-manuals/copyright-format/1.0/\\nUpstream-Name: x\\n# c\\nSource: https://e.org\\n\"" },
         Read { what: "copyright::Header::fix leaves a current header alone", text: "Format: https://www.debian.org/doc/packaging-manuals/copyright-format/1.0/\nUpstream-Name: x\n", read: |d| { let c = cp(d); let mut h = c.header().unwrap(); h.fix(); c.to_string() }, expect: "Format: https://www.debian.org/doc/packaging-manuals/copyright-format/1.0/\nUpstream-Name: x\n" },
         Read { what: "dep3::PatchHeader set_upstream_bug / set_vendor_bug add fields that bugs() reports", text: "Description: x\nBug: https://e.org/1\n", read: |d| { let mut h = dp(d); h.set_upstream_bug("https://e.org/2"); h.set_vendor_bug("Debian", "https://bugs.debian.org/3"); format!("{:?} {:?}", h.bugs().collect::<Vec<_>>(), h.vendor_bugs("Debian").collect::<Vec<_>>()) }, expect: "[(None, \"https://e.org/1\"), (None, \"https://e.org/2\"), (Some(\"Debian\"), \"https://bugs.debian.org/3\")] [\"https://bugs.debian.org/3\"]" },
+        Read { what: "Control::new + add_source + add_binary build a control file from nothing", text: "X: y\n", read: |_| { let mut c = control::Control::new(); let mut s = c.add_source("s"); s.set_section(Some("libs")); let mut b = c.add_binary("b"); b.set_architecture(Some("any")); format!("{:?} {:?} {:?}", c.as_deb822().to_string(), c.source().and_then(|s| s.section()), c.binaries().map(|b| b.architecture()).collect::<Vec<_>>()) }, expect: "\"Source: s\\nSection: libs\\n\\nPackage: b\\nArchitecture: any\\n\" Some(\"libs\") [Some(\"any\")]" },
+        Read { what: "Copyright::new carries the current format, Copyright::empty nothing", text: "X: y\n", read: |_| { let c = debian_copyright::lossless::Copyright::new(); let e = debian_copyright::lossless::Copyright::empty(); format!("{:?} {:?} {:?} {}", c.to_string(), c.header().and_then(|h| h.format_string()), e.to_string(), e.header().is_none()) }, expect: "\"Format: https://www.debian.org/doc/packaging-manuals/copyright-format/1.0/\\n\" Some(\"https://www.debian.org/doc/packaging-manuals/copyright-format/1.0/\") \"\" true" },
+        Read { what: "dep3::PatchHeader::new + setters build a header from nothing", text: "X: y\n", read: |_| { let mut h = dep3::lossless::PatchHeader::new(); h.set_description("short"); h.set_author("A <a@e.org>"); h.set_upstream_bug("https://e.org/1"); format!("{:?} {:?} {:?} {:?}", h.to_string(), h.description(), h.author(), h.bugs().collect::<Vec<_>>()) }, expect: "\"Description: short\\nAuthor: A <a@e.org>\\nBug: https://e.org/1\\n\" Some(\"short\") Some(\"A <a@e.org>\") [(None, \"https://e.org/1\")]" },
+        Read { what: "copyright::LicenseParagraph::comment", text: "Format: x\n\nLicense: MIT\n text\nComment: why\n more\n", read: |d| { let c = cp(d); let l = c.iter_licenses().next().unwrap(); format!("{:?}", l.comment()) }, expect: "Some(\"why\\nmore\")" },
+        Read { what: "fields::Checksum::filename/size on the four checksum types", text: "Package: cvsd\nFiles:\n b7a7 890 a.dsc\nChecksums-Sha1:\n da39 891 b.dsc\nChecksums-Sha256:\n a7bb 892 c.dsc\nChecksums-Sha512:\n cf83 893 d.dsc\n", read: |d| { use debian_control::fields::Checksum; let s = v_asrc(d); let mut v: Vec<(String, usize)> = vec![]; v.extend(s.files().iter().map(|f| (f.filename(), f.size()))); v.extend(s.checksums_sha1().iter().map(|f| (f.filename(), f.size()))); v.extend(s.checksums_sha256().iter().map(|f| (f.filename(), f.size()))); v.extend(s.checksums_sha512().iter().map(|f| (f.filename(), f.size()))); format!("{:?}", v) }, expect: "[(\"a.dsc\", 890), (\"b.dsc\", 891), (\"c.dsc\", 892), (\"d.dsc\", 893)]" },
+        Read { what: "Changes::source and get_pool_path with a versioned Source field (binNMU)", text: "Format: 1.8\nSource: hello (2.10-3)\nBinary: hello\nVersion: 2.10-3+b1\nFiles:\n aa83 56132 devel optional hello_2.10-3+b1_amd64.deb\n", read: |d| { let c = debian_control::lossless::changes::Changes::read(d.to_string().as_bytes()).unwrap(); format!("{:?} {:?}", c.source(), c.get_pool_path()) }, expect: "Some(\"hello\") Some(\"pool/main/h/hello\")" },
         Read { what: "Changes::set_format", text: "Format: 1.7\nSource: foo\n", read: |d| { let mut c = debian_control::lossless::changes::Changes::read(d.to_string().as_bytes()).unwrap(); c.set_format("1.8"); format!("{:?}", c.format()) }, expect: "Some(\"1.8\")" },
         Read { what: "copyright::Header::format_string + files_excluded lines", text: "Format: https://www.debian.org/doc/packaging-manuals/copyright-format/1.0/\nFiles-Excluded: vendor/*\n *.min.js\n", read: |d| { let c = cp(d); let h = c.header().unwrap(); format!("{:?} {:?}", h.format_string(), h.files_excluded()) }, expect: "Some(\"https://www.debian.org/doc/packaging-manuals/copyright-format/1.0/\") Some([\"vendor/*\", \"*.min.js\"])" },
         Read { what: "copyright::FilesParagraph::files + copyright lines + license", text: "Format: x\n\nFiles: src/* debian/*\n doc/?\nCopyright: 2019 A\n 2020 B\nLicense: GPL-2+\n", read: |d| { let c = cp(d); let f = c.iter_files().next().unwrap(); format!("{:?} {:?} {:?}", f.files(), f.copyright(), f.license()) }, expect: "[\"src/*\", \"debian/*\", \"doc/?\"] [\"2019 A\", \"2020 B\"] Some(Name(\"GPL-2+\"))" },
